@@ -18,6 +18,7 @@ func init() {
 }
 
 func runC09(c *core.Ctx) {
+	runFixtures(c, "valid", "drop")
 	c.Explain("Structural clauses of C09 decided from source on linux, windows and darwin builds of package hackpadfs/os: (R09.1) every call to a path-taking function of the standard os package receives, as each path operand, the first result of the name→OS-path mapping (rootedPath/toOSPath), at a point dominated by that call's nil-error edge — no raw name reaches the kernel; (R09.2) the mapping validates before it joins and joins path.Join(\"/\", root, name) in that order, so the result is root-prefixed; (R09.3) every non-error return of the reverse mapping returns the constant \".\" or a value tested by ValidPath on the way; (R09.4) the root-prefix test of the reverse mapping respects element boundaries (root+\"/\" or equality); (R09.5) every error produced by a standard os function or *os.File method leaves package os only through the translator that rewrites OS paths into FS-relative names; (R09.6) the exported reverse mapping refuses non-absolute paths before converting. NOT claimed: ToOSPath∘FromOSPath = id (string arithmetic), volume handling on real Windows paths beyond these shapes.")
 	c.Assume("A2: standard os/path/filepath functions behave as documented")
 	c.RuleDoc("R09.1", "only mapped paths reach standard os calls, on the mapping's success edge")
@@ -223,7 +224,8 @@ func r09Errors(c *core.Ctx, p *load.Program) {
 					if ssax.CalleeIs(cl, "strings", "TrimPrefix") {
 						found = true
 					}
-					if callee := ssax.StaticCallee(cl); callee != nil && tr[callee] {
+					// translators it chains to, and string helpers of the module it rewrites the paths with
+					if callee := ssax.StaticCallee(cl); callee != nil && (tr[callee] || p.InModule(callee)) {
 						walk(callee, d+1)
 					}
 				}
@@ -352,7 +354,12 @@ func prefixTests(p *load.Program, fn *ssa.Function) []prefixVerdict {
 				}
 			}
 			if s, ok := ssax.ConstString(y); ok {
-				out = append(out, prefixVerdict{key, p.Pos(cl.Pos()), fmt.Sprintf("constant prefix %q", s), true})
+				good := s == "" || strings.HasSuffix(s, "/")
+				msg := fmt.Sprintf("constant prefix %q ends on an element boundary", s)
+				if !good {
+					msg = fmt.Sprintf("%s: strings.HasPrefix(%s, %q) tests the first characters of a name: names are opaque byte strings, only whole path elements may be matched (a child called %q+anything would be treated specially)", fname(f), vname(cl.Call.Args[0]), s, s)
+				}
+				out = append(out, prefixVerdict{key, p.Pos(cl.Pos()), msg, good})
 				return
 			}
 			good := endsInSlash(y)
@@ -391,4 +398,19 @@ func endsInSlash(v ssa.Value) bool {
 		return true
 	}
 	return false
+}
+
+// boundaryTests runs prefixTests over every top-level source function of the given packages (relative paths, ""
+// is the module root) and records each strings.HasPrefix as an obligation of `rule`.
+func boundaryTests(c *core.Ctx, p *load.Program, rule string, pkgs ...string) {
+	for _, rel := range pkgs {
+		for _, fn := range pkgFuncs(p, rel) {
+			if fn.Parent() != nil {
+				continue
+			}
+			for _, v := range prefixTests(p, fn) {
+				c.Check(v.ok, rule, fname(fn)+"|"+v.key, v.pos, v.msg, v.msg)
+			}
+		}
+	}
 }
